@@ -289,6 +289,10 @@ func c12Main(r *run.Runner) {
 	// kilobytes long and some are legitimately quadratic (seconds at 4 KiB).
 	r.MaxWorkers = 2
 	r.HangLimit.Store(30)
+	if !r.Thorough() {
+		// 2 KiB inputs: the slowest call on the unchanged tree takes about 1 s (accepted quadratic cascades)
+		r.HangLimit.Store(12)
+	}
 	var slowMu sync.Mutex
 	slowest := map[string]float64{}
 	r.Sweep("families", int64(len(cases)), func(w *run.Worker, item int64) {
